@@ -129,8 +129,18 @@ def case_hash(case):
     return hashlib.sha1(canon_json(case).encode()).hexdigest()[:16]
 
 
+def _finite(o):
+    if isinstance(o, float) and (math.isinf(o) or math.isnan(o)):
+        return repr(o)  # strict JSON has no Infinity / NaN
+    if isinstance(o, dict):
+        return {k: _finite(v) for k, v in o.items()}
+    if isinstance(o, list):
+        return [_finite(v) for v in o]
+    return o
+
+
 def jsonable(obj):
-    return json.loads(canon_json(obj))
+    return _finite(json.loads(canon_json(obj)))
 
 
 # ---------------------------------------------------------------------------------------------
@@ -238,6 +248,7 @@ def mk_sqlite(graph, dirname, latlon=False, name="m"):
 
 
 FAMILIES = ("simple", "simple_n", "distance")
+FAMILIES4 = ("simple", "simple_n", "distance", "nk")  # + NewsonKrummMatcher, used by the checks that need no reference model
 
 
 def mk_matcher(mapobj, cfg):
@@ -249,6 +260,10 @@ def mk_matcher(mapobj, cfg):
     fam = cfg["family"]
     if fam == "distance":
         return DistanceMatcher(mapobj, **kw)
+    if fam == "nk":
+        from leuvenmapmatching.matcher.newsonkrumm import NewsonKrummMatcher
+        kw.pop("avoid_goingback", None)
+        return NewsonKrummMatcher(mapobj, **kw)
     return SimpleMatcher(mapobj, only_edges=(fam == "simple"), **kw)
 
 
